@@ -17,7 +17,6 @@ Python's own loops: result type, elements and order, exact effect log
 (key/value of dfor unordered among themselves), gfor laziness step by step,
 and the names visible in the enclosing scope after the form with their values.
 """
-import json
 import re
 import types
 
@@ -159,7 +158,6 @@ def run_impl(text, fast=None):
         return rec
 
     mod.log, mod.obs = logf, obs
-    base = set(mod.__dict__)
     out = {"phase": "compile", "log": log, "strategy": "?"}
     try:
         with time_limit(30):
@@ -265,9 +263,12 @@ def check_case(acc, term, scope, mode, sample=False, fast=False):
         acc.count("unspecified:" + cls)
         if "exc" in r:
             acc.outcome(f"unspecified:{r['phase']}-error:{r['exc'][0]}")
-            ok = r.get("user_error") or (r["phase"] == "run" and r["exc"][0] == "SyntaxError")
-            if r["phase"] == "compile" and r["exc"][0] == "SyntaxError":
-                ok = True
+            if r["phase"] == "compile":
+                # a user-facing error (not one that merely wraps an internal exception), or Python's own SyntaxError for the emitted AST
+                ok = r.get("user_error") or r["exc"][0] == "SyntaxError"
+            else:
+                # what an unspecified program does at run time is not judged, unless it hangs or breaks the interpreter
+                ok = r["exc"][0] not in ("timeout", "Fuel", "SystemError", "RecursionError", "MemoryError")
             if not ok:
                 bad("internal-error-in-unspecified-form", f"{cls}: {r['exc'][0]}: {r['exc'][1]}",
                     exc=r["exc"][0] + (":" + r["wrapped"] if r.get("wrapped") else ""), unspecified_class=cls)
